@@ -131,10 +131,11 @@ def do_write(obj, path, fmt, ow, opts, strict=False, pathlike=False):
                 import pathlib
                 path = pathlib.Path(path)
             _OW[0] += 1
+            fkw = {} if fmt is None else {'format': fmt}
             if ow is False and _OW[0] % 2:
-                obj.write(path, format=fmt, **opts)          # overwrite not given at all: the default is "do not overwrite"
+                obj.write(path, **fkw, **opts)          # overwrite not given at all: the default is "do not overwrite"
             else:
-                obj.write(path, format=fmt, overwrite=ow, **opts)
+                obj.write(path, overwrite=ow, **fkw, **opts)
         return 'ok'
     except OSError:
         return 'OSError'
@@ -235,9 +236,23 @@ def run_case(ctx, sc, req, allowed, variant, rnd):
                 return same_regions(Regions.read(path, format='fits'), parsed)
         except Exception:  # noqa
             return False
-    result = do_write(obj, a, fmt, ow, opts, strict=strict, pathlike=pathlike)
+    # the format is left to be found from the (registered) extension for every third request; an existing file named through '~' (the home
+    # directory set to the scratch directory) for every fifth refusal - however a destination is named, it is the same destination
+    infer = variant % 3 == 2
+    tilde = dest == 'file' and ow is False and ser == 'ok' and not pathlike and variant % 5 == 4     # (with a failing list the package does not get as far as looking at a '~' name)
+    target = a
+    home0 = os.environ.get('HOME')
+    if tilde:
+        os.environ['HOME'] = os.path.dirname(a)
+        target = '~/' + os.path.basename(a)
+    try:
+        result = do_write(obj, target, None if infer else fmt, ow, opts, strict=strict, pathlike=pathlike)
+    finally:
+        if tilde:
+            os.environ['HOME'] = home0 if home0 is not None else ''
     fs = {'a': classify(a, old, is_new), 'b': classify(b, old, is_new)}
-    case = {'request': req, 'injected': inject, 'via': how, 'ext': ext, 'observed': {'result': result, 'fs': fs}, 'allowed': allowed}
+    case = {'request': req, 'injected': inject, 'via': how, 'ext': ext, 'format_argument': 'inferred from the extension' if infer else 'given', 'tilde_path': tilde,
+            'observed': {'result': result, 'fs': fs}, 'allowed': allowed}
     ctx.case((fmt, ow, ser, dest, content, optsel, inject, how, ext, pathlike), True)
     ok = any(result == r and fs == f for r, f in allowed)
     if not ok:
